@@ -11,7 +11,8 @@ EXTENDS CFrame, WireGen, IOUtils
 VARIABLES stage, S, k, v
 vars == <<stage, S, k, v>>
 
-IdsOf == <<4, 1, 7, 2>>
+(* field ids by position: with id 0 not in front (2 fields), sparse ids beyond one byte around an id 0 (3 fields), small ids (4) *)
+IdsFor(n) == CASE n = 2 -> <<3, 0>> [] n = 3 -> <<300, 0, 256>> [] OTHER -> <<4, 1, 7, 2>>
 CanTypes  == << U(3), I(12), U(8), En("Ec"), F32, I(5) >>
 WireTypes == << Str, Opt(U(3)), Dyn(I(5)), U(13), F64 >>
 (* bases: tuples of field types; the CAN family stays within 64 bits *)
@@ -22,7 +23,7 @@ WireBases == { <<WireTypes[1], CanTypes[1]>>, <<WireTypes[2], CanTypes[2]>>, <<C
                <<WireTypes[1], CanTypes[1], WireTypes[4]>>, <<WireTypes[2], WireTypes[5], CanTypes[6]>>,
                <<CanTypes[1], WireTypes[3], WireTypes[2], WireTypes[4]>> }
 FName(i) == <<"fa", "fb", "fc", "fd">>[i]
-BaseFields(b) == [i \in 1..Len(b) |-> Field(FName(i), IdsOf[i], b[i], 1)]
+BaseFields(b) == [i \in 1..Len(b) |-> Field(FName(i), IdsFor(Len(b))[i], b[i], 1)]
 PermsOf(n) == SetToSeq(Permutations(1..n))
 Twins(b) == LET f == BaseFields(b)  ps == PermsOf(Len(b)) IN
             [j \in 1..Len(ps) |-> [i \in 1..Len(f) |-> f[ps[j][i]]]]
